@@ -650,6 +650,14 @@ pub fn gen_big(prop: &str, seed: u64, idx: u64) -> (StreamScenario, GenInfo) {
             ReadStep::Bytes(r.range(3000, 66000))
         }
     };
+    let (reads, default_read) = if giant {
+        // every refill rolls (memmoves) the whole retained tail of >= 128 KiB:
+        // only large reads, or a run costs tens of seconds
+        let d = *r.pick(&[ReadStep::Fill, ReadStep::Half, ReadStep::Bytes(1 << 20), ReadStep::Bytes(3_000_000), ReadStep::AllButOne]);
+        (reads.into_iter().filter(|s| matches!(s, ReadStep::Until(_) | ReadStep::Fill | ReadStep::Half | ReadStep::AllButOne)).take(8).collect::<Vec<_>>(), d)
+    } else {
+        (reads, default_read)
+    };
     let op = match prop {
         "C07" => StreamOp::Find,
         "C08" => *r.pick(&[StreamOp::Replace, StreamOp::ReplaceWith]),
